@@ -154,6 +154,8 @@ func (o Op) String() string {
 		return fmt.Sprintf("AddUserProp(%d pairs)", len(o.KV))
 	case "will":
 		return fmt.Sprintf("SetWill(qos %d retain %v)", o.Will.QoS, o.Will.Retain)
+	case "editlist":
+		return fmt.Sprintf("in-place edit of list element %d (subid=%v) through the accessor's slice", o.N, o.Flag)
 	case "editfilter":
 		return fmt.Sprintf("Filters()[%d].SetFilter(len %d)/SetOptions(%d)", o.N, len(o.B), o.ID)
 	case "rewill":
@@ -485,6 +487,27 @@ func Apply(p mq.Packet, o Op) error {
 		p.(*mq.Connect).SetProtocolVersion(uint8(o.N))
 	case "will":
 		p.(*mq.Connect).SetWill(BuildWill(o.Will))
+	case "editlist":
+		// in-place edit of a list element through the slice an accessor returns
+		// (ReasonCodes(), SubscriptionIDs()) or through the exported UserProperties field
+		switch x := p.(type) {
+		case *mq.SubAck:
+			if l := x.ReasonCodes(); len(l) > 0 {
+				l[int(o.N)%len(l)] = byte(o.ID)
+			}
+		case *mq.UnsubAck:
+			if l := x.ReasonCodes(); len(l) > 0 {
+				l[int(o.N)%len(l)] = byte(o.ID)
+			}
+		case *mq.Publish:
+			if o.Flag {
+				if l := x.SubscriptionIDs(); len(l) > 0 {
+					l[int(o.N)%len(l)] = 1 + uint32(o.ID)
+				}
+			} else if len(x.UserProperties) > 0 {
+				x.UserProperties[int(o.N)%len(x.UserProperties)][1] = string(o.B)
+			}
+		}
 	case "editfilter":
 		// in-place edit of a topic filter through the slice Filters() returns
 		x, ok := p.(*mq.Subscribe)
@@ -622,6 +645,36 @@ func ApplyModel(a *ref.AP, o Op) {
 		a.ConnFlags |= (w.QoS & 3) << 3
 		if w.Retain {
 			a.ConnFlags |= ref.CFWillRetain
+		}
+	case "editlist":
+		switch a.Type {
+		case ref.SubAck, ref.UnsubAck:
+			if len(a.Codes) > 0 {
+				cs := append([]byte{}, a.Codes...)
+				cs[int(o.N)%len(cs)] = o.ID
+				a.Codes = cs
+			}
+		case ref.Publish:
+			want := byte(0x26)
+			if o.Flag {
+				want = 0x0B
+			}
+			var idx []int
+			for i, p := range a.Props {
+				if p.ID == want {
+					idx = append(idx, i)
+				}
+			}
+			if len(idx) > 0 {
+				ps := append([]ref.Prop{}, a.Props...)
+				i := idx[int(o.N)%len(idx)]
+				if o.Flag {
+					ps[i].N = 1 + uint32(o.ID)
+				} else {
+					ps[i].V = o.B
+				}
+				a.Props = ps
+			}
 		}
 	case "editfilter":
 		if a.Type == ref.Subscribe && len(a.Filters) > 0 {
